@@ -368,6 +368,17 @@ def run(ctx, R, tier):
     R.check(ok, "C10-R6", "close|only-while-connected", "close_stream is sent only while the proxy is connected", cl.loc(),
             "closing a stream of a disconnected proxy would reconnect / raise")
 
+    # ... and it IS sent whenever the proxy is connected: close() of a live stream tells the server on every path (in sync: through the proxy itself, otherwise through
+    # a copy) - a branch that just forgets the stream locally leaves the server's generator and whatever it holds alive until the lifetime/linger clock runs out, or for ever
+    gate = [n for n in walk_no_nested(cl.node) if isinstance(n, ast.If) and "_pyroConnection" in unparse(n.test)]
+    send_nodes = [n for c in sends for n in ctx.node_of(cl, c)]
+    told = False
+    if len(gate) == 1 and gate[0].body:
+        first = ccfg.nodes_for(gate[0].body[0])
+        told = bool(first) and (all(n in send_nodes for n in first) or ccfg.all_paths_pass(first, lambda n: n in send_nodes, edge_ok=no_exc, targets=[ccfg.exit]))
+    R.check(told, "C10-R6", "close|connected-stream-is-closed-at-the-server", "with a connected proxy every path through close() sends close_stream (%d send site(s))" % len(sends), cl.loc(),
+            "close() can return for a connected proxy without having sent close_stream: the server keeps the stream (and the generator's resources) although the client closed it")
+
     # server: the result of a single (non-batch) call or attribute read goes through _streamResponse before it is serialised into the reply
     hr = ctx.fn("Pyro5.server.Daemon.handleRequest")
     hcfg = ctx.cfg(hr)
